@@ -71,7 +71,12 @@ class Tracer:
         else:
             self._wrap(b, "_Balancer__post_process", pp, "postproc", counts)
         rp = getattr(b, "_Balancer__run_pipeline", None)
+        self.have_rp = rp is not None
         if rp is None:
+            # the private per-batch method is not there under that name (it is private: it may be renamed or
+            # split at any time).  Batches are then opened at the first public stage of a batch (the input
+            # validator), without the batch's stats / returned rows; everything that decides a property sits
+            # at the client boundary anyway, the snapshots only localise.
             self.missing.append("run_pipeline")
         else:
             tr = self
@@ -100,6 +105,12 @@ class Tracer:
         tr = self
 
         def wrapper(reactions, *a, **k):
+            if not tr.have_rp and label == "input_check":
+                rec = {"inputs": [dict(r) for r in reactions if isinstance(r, dict)], "stages": [],
+                       "rows": None, "stats": None, "error": None, "opened_at": "input_check"}
+                tr.cur = rec
+                tr.batches.append(rec)
+                tr._n = {}
             try:
                 return fn(reactions, *a, **k)
             finally:
